@@ -656,6 +656,8 @@ func byteCorrupt(v9 bool, tier string) mck.Space {
 	cs := e.contents(tier)
 	if tier != "thorough" {
 		cs = cs[:5]
+	} else if len(cs) > 18 {
+		cs = cs[:18] // the six base contents and the mixed ones with 2..13 exporters: ~3 million corruptions per protocol
 	}
 	var files [][]byte
 	var cum []uint64
